@@ -46,6 +46,9 @@ def cases(rng, tier):
         yield {"op": "pipeline", "pipeline": p}
     for _ in range(n):
         yield {"op": "pipeline", "pipeline": pipes.gen_case(rng, 3)}
+    # the subscriber's own terminal handler raises after it received the notification: the release must not depend on it
+    for _ in range(n // 4):
+        yield {"op": "pipeline", "pipeline": pipes.gen_case(rng, 3), "sub_raises": True}
     for _ in range(fw.tier_scale(tier, 500, 6000)):
         yield {"op": "tramp", "tree": trampipes.gen_tree(rng, 3), "k": None}
     for _ in range(fw.tier_scale(tier, 300, 3000)):
@@ -64,7 +67,7 @@ def impl(case):
             return trampipes.run(case)
         except Exception as e:  # noqa: BLE001 - a generated tree the library rejects when it is built
             return {"log": [], "mark": None, "rejected": type(e).__name__, "base": []}
-    out = pipes.run(case["pipeline"])
+    out = pipes.run(case["pipeline"], sub_raises=case.get("sub_raises", False))
     return {"log": out["log"], "subs": out["subs"], "escaped": out["escaped"]}
 
 
@@ -101,6 +104,8 @@ def bucket(case, out):
         return
     for s in case["pipeline"]["stages"]:
         yield "stage:" + s[0]
+    if case.get("sub_raises"):
+        yield "subscriber-terminal-handler-raises"
     yield "terminal" if any(n[0] in ("E", "C") for _, n in out["log"]) else "no-terminal"
 
 
@@ -117,12 +122,12 @@ def shrink(case):
     p = case["pipeline"]
     for i in range(len(p["stages"])):
         if len(p["stages"]) > 1:
-            yield {"op": "pipeline", "pipeline": {"sources": p["sources"], "stages": p["stages"][:i] + p["stages"][i + 1:]}}
+            yield dict(case, pipeline={"sources": p["sources"], "stages": p["stages"][:i] + p["stages"][i + 1:]})
     for s in range(len(p["sources"])):
         for i in range(len(p["sources"][s]["msgs"])):
             srcs = [dict(x, msgs=list(x["msgs"])) for x in p["sources"]]
             del srcs[s]["msgs"][i]
-            yield {"op": "pipeline", "pipeline": {"sources": srcs, "stages": p["stages"]}}
+            yield dict(case, pipeline={"sources": srcs, "stages": p["stages"]})
 
 
 def search(rng, tier, disagreeing):
@@ -135,6 +140,8 @@ def search(rng, tier, disagreeing):
     names = sorted(n for n in names if n in pipes.STAGES) or None
     for i in range(fw.tier_scale(tier, 6000, 40000)):
         c = {"op": "pipeline", "pipeline": pipes.gen_case(rng, 2 if i % 2 else 3, names if i % 4 else None)}
+        if i % 3 == 0:
+            c["sub_raises"] = True
         v = oracle(c, impl(c))
         if v:
             f = fw.Failure("oracle", c, v)
